@@ -433,6 +433,15 @@ let exec (s : t) (verbose : bool) (f : string array) (obs : string option) : str
        s.db <- Some d;
        (match e with None -> "ok " ^ vl | Some e -> "err " ^ eerr_name e) ^ events_str evs
      | _ -> o)
+  | "bpadto" ->
+    (* the value length was computed by the harness from the file's logical size and the batch id (inputs of the model) *)
+    let o = match obs with Some o -> obs_head o | None -> "err nolength" in
+    (match String.split_on_char ' ' o with
+     | "ok" :: vl :: _ ->
+       let (((d, b), e), evs) = batch_put (get_db s) (get_batch s) (tok_bytes f.(3)) (tok_bytes ("@" ^ vl ^ ":" ^ f.(4))) in
+       s.db <- Some d; s.batch <- Some b;
+       (match e with None -> "ok " ^ vl | Some e -> "err " ^ eerr_name e) ^ events_str evs
+     | _ -> o)
   | "bold" -> "err committed"   (* the handle of an earlier, committed batch stays dead *)
   | "closenoflush" ->
     (* judged on the implementation side (a Close that cannot flush reports it); the database is left closed *)
